@@ -321,6 +321,58 @@ class Run:
                 raise MachineryError("driver %s failed: rc=%s\n%s" % (mode, bad[0][0], bad[0][1][-3000:]))
         return obs, status
 
+    def drive_isolated(self, mode, cases, *, env=None, shards=None, timeout=600, args=()):
+        """Run cases in worker processes that may die (a panic in a background goroutine cannot be
+        recovered by the driver).  A dead worker's batch is bisected down to the killing inputs;
+        returns (observations, [(case, returncode, stderr tail)])."""
+        drv = self.build_driver()
+        e = dict(os.environ)
+        e.update(env or {})
+        shards = shards or NCPU
+        obs, killers = [], []
+
+        def run_batch(batch):
+            p = subprocess.run([drv, mode] + list(args), input="\n".join(json.dumps(c, ensure_ascii=False) for c in batch).encode(),
+                               stdout=subprocess.PIPE, stderr=subprocess.PIPE, env=e, timeout=timeout)
+            out = []
+            for l in p.stdout.decode("utf-8", "replace").splitlines():
+                if l.strip().startswith("{"):
+                    try:
+                        out.append(json.loads(l))
+                    except ValueError:
+                        break          # a line cut short by the death of the worker
+            return p.returncode, out, p.stderr.decode("utf-8", "replace")
+
+        def solve(batch, depth=0):
+            if not batch:
+                return
+            try:
+                rc, out, err = run_batch(batch)
+            except subprocess.TimeoutExpired:
+                rc, out, err = -9, [], "TIMEOUT"
+            if rc == 0 and len(out) == len(batch):
+                obs.extend(out)
+                return
+            if len(batch) == 1:
+                killers.append((batch[0], rc, err[-1500:]))
+                return
+            # the outputs before the crash are valid; continue after the last answered case
+            done = len(out)
+            obs.extend(out)
+            rest = batch[done:]
+            if done > 0:
+                solve(rest, depth + 1)
+            else:
+                mid = max(1, len(rest) // 2) if len(rest) > 1 else 1
+                solve(rest[:1], depth + 1)
+                solve(rest[1:], depth + 1)
+
+        import concurrent.futures
+        chunks = [cases[i::shards] for i in range(shards)]
+        with concurrent.futures.ThreadPoolExecutor(max_workers=shards) as ex:
+            list(ex.map(solve, chunks))
+        return obs, killers
+
     # ------------------------------------------------------- known findings
     def known_findings(self):
         if self._kf is None:
